@@ -112,7 +112,9 @@ func (its *document) GetByPath(path string) (Document, errors.OrdaError) {
 	if len(paths) == 1 && paths[0] == "" {
 		return its, nil
 	}
-	target, err := its.snapshot().getTargetByPaths(paths)
+	var target jsonType
+	var err errors.OrdaError
+	its.DoRead(its.TxCtx, func() { target, err = its.snapshot().getTargetByPaths(paths) })
 	if err != nil {
 		return nil, err
 	}
@@ -208,12 +210,13 @@ func (its *document) ResetSnapshot() {
 	its.Snapshot = newJSONObject(its.BaseDatatype, nil, model.OldestTimestamp())
 }
 
-func (its *document) ToJSON() interface{} {
-	return its.snapshot().ToJSON()
+func (its *document) ToJSON() (ret interface{}) {
+	its.DoRead(its.TxCtx, func() { ret = its.snapshot().ToJSON() })
+	return
 }
 
 func (its *document) GetValue() interface{} {
-	return its.snapshot().ToJSON()
+	return its.ToJSON()
 }
 
 func (its *document) ExecuteLocal(op interface{}) (interface{}, errors.OrdaError) {
@@ -306,12 +309,17 @@ func (its *document) GetFromObject(key string) (Document, errors.OrdaError) {
 	if err := its.assertLocalOp("GetFromObject", TypeJSONObject, true); err != nil {
 		return nil, err
 	}
-	obj := its.snapshot().(*jsonObject)
-	child := obj.getFromMap(key)
-	if child == nil || child.(jsonType).isGarbage() {
+	var found jsonType
+	its.DoRead(its.TxCtx, func() {
+		obj := its.snapshot().(*jsonObject)
+		if child := obj.getFromMap(key); child != nil && !child.(jsonType).isGarbage() {
+			found = child.(jsonType)
+		}
+	})
+	if found == nil {
 		return nil, nil
 	}
-	return its.toDocument(child.(jsonType)), nil
+	return its.toDocument(found), nil
 }
 
 // GetFromArray returns the element of the JSONArray Document at the given position.
@@ -327,11 +335,17 @@ func (its *document) GetManyFromArray(pos int, numOfNodes int) ([]Document, erro
 	if err := its.assertLocalOp("GetManyFromArray", TypeJSONArray, true); err != nil {
 		return nil, err
 	}
-	arr := its.snapshot().(*jsonArray)
-	if err := arr.validateGetRange(pos, numOfNodes); err != nil {
+	var children []jsonType
+	var err errors.OrdaError
+	its.DoRead(its.TxCtx, func() {
+		arr := its.snapshot().(*jsonArray)
+		if err = arr.validateGetRange(pos, numOfNodes); err == nil {
+			children = arr.getManyJSONTypes(pos, numOfNodes)
+		}
+	})
+	if err != nil {
 		return nil, err
 	}
-	children := arr.getManyJSONTypes(pos, numOfNodes)
 	return its.toDocuments(children), nil
 }
 
@@ -416,8 +430,9 @@ func (its *document) GetTypeOfJSON() TypeOfJSON {
 	return its.snapshot().getType()
 }
 
-func (its *document) IsGarbage() bool {
-	return its.snapshot().isGarbage()
+func (its *document) IsGarbage() (ret bool) {
+	its.DoRead(its.TxCtx, func() { ret = its.snapshot().isGarbage() })
+	return
 }
 
 func (its *document) GetParentDocument() Document {
